@@ -231,3 +231,17 @@ CHECKS["C17"] = {
     ],
     "assumptions": ["IPv6 zones are not generated; ports 853/443 on 127.33-35.x.y and ::1 are bound by the harness for the default-port QUIC cases (skipped when busy)"],
 }
+
+CHECKS["C03"] = {
+    "title": "Every query gets exactly one matching response whatever the upstream does",
+    "level": "fault_enumeration",
+    "level_text": "Generated batches of (listener kind x decodable query x upstream outcome) run against the real binary (cache off and on) with all eight listener kinds and scripted fake upstreams (reply, error rcode, garbage, truncated frame, accept-then-close, dead port, silence until the deadline, no rule, rule without action); per query everything that comes back is collected and must be exactly one well-formed response with the stated header fields, question and reference rcode, within the deadline. Enumeration of fault classes x generated inputs; no proof.",
+    "level_note": "UDP loss on loopback is handled by one solo retry before a missing response counts; the 8 s bound is 6 s + 2 s slack.",
+    "technique": "property-based testing (rapid) with fault injection: generated workloads against the real binary, reference rcode model, exactly-once history invariant",
+    "parts": [
+        {"engine": "E", "proxy": ["plain"], "tests": [
+            {"run": "TestVfC03", "quick": 40, "thorough": 1200, "shards_quick": 8, "shards_thorough": 16, "timeout_quick": 600, "timeout_thorough": 3400, "shrinktime": "40s"},
+        ]},
+    ],
+    "assumptions": ["well-formed fake replies carry the lower-cased question they were asked, as real servers do", "clients keep their transport open until the response or 9 s"],
+}
